@@ -211,7 +211,8 @@ def run_case(case, cnt=None, root=None):
                                  f"re-placed source: {' | '.join(l.strip() for l in list(t.values())[0].splitlines()[:16])}"[:1500],
                          "case": dict(case, variant=j)}
                     if meta.known_cycle(o, t) or meta.known_cycle(o0, t0):
-                        v["known_key"] = "definitional-cycle"
+                        cnt["excluded_known_cycle"] = cnt.get("excluded_known_cycle", 0) + 1     # listed C08 finding, not judged here
+                        continue
                     out.append(v)
                     break
         else:
